@@ -1537,3 +1537,92 @@ func (c *Ctx) makeAppend(rule string, funcs []*FuncInfo, clause string) (n, nvio
 	}
 	return
 }
+
+// ---------------------------------------------------------------------------------------------
+// COUNT (C10): the number of bootstrap trees by which TBE divides its accumulated distances is a
+// counter of TBE itself: a local integer starting at 0, incremented exactly once per bootstrap
+// tree taken from the channel, and assigned nowhere else. A count read from an object that lives
+// longer than the call (a Supporter's progress) also counts the trees of earlier computations.
+func (c *Ctx) tbeCount(rule string) int {
+	fi := c.Func("support", "", "TBE")
+	if fi == nil {
+		return 0
+	}
+	clause := "transfer support equals one minus the mean over bootstrap trees"
+	info := fi.Pkg.TypesInfo
+	var rs *ast.RangeStmt
+	ast.Inspect(fi.Decl.Body, func(n ast.Node) bool {
+		if r, ok := n.(*ast.RangeStmt); ok && rs == nil {
+			if ch, ok := info.TypeOf(r.X).Underlying().(*types.Chan); ok && strings.HasSuffix(ch.Elem().String(), "tree.Trees") {
+				rs = r
+			}
+		}
+		return true
+	})
+	if rs == nil {
+		c.Undecided(rule, "support.TBE/loop", fi.Decl.Pos(), "loop over the bootstrap channel not found")
+		return 0
+	}
+	n := 0
+	seen := map[string]bool{}
+	for _, call := range callsIn(fi.Decl.Body, true) {
+		g := calleeOf(info, call)
+		if g == nil || !(isRepoFunc(g, "support", "", "NormalizeTransferDistancesByDepth") || isRepoFunc(g, "support", "", "ReformatAvgDistance")) || len(call.Args) < 2 {
+			continue
+		}
+		key := "support.TBE/" + g.Name() + "(n)"
+		if seen[key] {
+			continue
+		}
+		seen[key] = true
+		n++
+		arg := unparen(call.Args[1])
+		v, _ := identObj(info, arg).(*types.Var)
+		if v == nil || v.Parent() == nil || v.Parent() == fi.Pkg.Types.Scope() {
+			c.Violation(rule, key, call.Pos(), "the number of bootstrap trees given to "+g.Name()+" is `"+c.canon(info, arg, nil)+"`, not a local counter of TBE").Clause = clause
+			continue
+		}
+		bad := ""
+		nInc := 0
+		forAssignsTo(info, fi.Decl.Body, v, func(rhs ast.Expr, multi, incdec bool) {
+			switch {
+			case incdec:
+				nInc++
+			case multi || rhs == nil:
+				bad = "assigned from a multi-valued expression"
+			default:
+				if tv, ok := info.Types[rhs]; ok && tv.Value != nil && tv.Value.String() == "0" {
+					return
+				}
+				bad = "assigned " + c.canon(info, rhs, nil)
+			}
+		})
+		// declaration with an initial value: var n int = e / n := e
+		ast.Inspect(fi.Decl.Body, func(m ast.Node) bool {
+			if vs, ok := m.(*ast.ValueSpec); ok {
+				for i, nm := range vs.Names {
+					if info.Defs[nm] == v && i < len(vs.Values) {
+						if tv, ok := info.Types[vs.Values[i]]; !ok || tv.Value == nil || tv.Value.String() != "0" {
+							bad = "initialised with " + c.canon(info, vs.Values[i], nil)
+						}
+					}
+				}
+			}
+			return true
+		})
+		if bad != "" {
+			c.Violation(rule, key, call.Pos(), fmt.Sprintf("the number of bootstrap trees `%s` is %s: it is not a count of the trees this call took from the channel (a value kept by an object that outlives the call also counts earlier computations)", v.Name(), bad)).Clause = clause
+			continue
+		}
+		if nInc == 0 {
+			c.Violation(rule, key, call.Pos(), "`"+v.Name()+"` is never incremented").Clause = clause
+			continue
+		}
+		if ok, why := incOncePerIteration(info, rs.Body.List, v); !ok {
+			c.Violation(rule, key, call.Pos(), "`"+v.Name()+"` does not count the bootstrap trees one by one: "+why).Clause = clause
+			continue
+		}
+		c.OK(rule, key, call.Pos(), "`"+v.Name()+"` is a local counter starting at 0, incremented exactly once per bootstrap tree")
+	}
+	return n
+}
